@@ -6,27 +6,27 @@ from pathlib import Path
 V = Path(__file__).resolve().parent.parent
 props = [json.loads(l) for l in (V / 'properties.jsonl').read_text().splitlines() if l.strip()]
 
-META = {
- 'C20': dict(
-  text='TLC model-checks the routing table design (all interleavings of logging/emit/ident/disconnect on 2-3 connections) '
-       'and the rotation rule; every depth-bounded behaviour TLC enumerates is replayed on the real Dispatcher + '
-       'RemoteLogHandler with the level table and the set of receivers compared after each step, and recorded random '
-       'histories / directory listings of the real LogfileHandler are validated by TLC against Trace_Logging / '
-       'Trace_LogRotation. Bounded (depth, 3 connections, 2 modules), exhaustive inside the bound.',
-  note='Trusted: TLC; the small alpha/gamma glue in harness/props/c20.py (fake connections, patched clock of mlzlog); '
-       'numeric level values and unknown module names in logging requests are outside the alphabet.',
-  tech='TLA+ spec (Logging.tla, LogRotation.tla) + TLC model checking; spec->code replay of all TLC behaviours; '
-       'code->spec TLC trace validation',
-  ref='DESIGN.md section 5 C20'),
-}
+import ast
+
+
+def load_meta(pid):
+    """each harness/props/cXX.py carries a literal  META = dict-literal  near its top"""
+    f = V / 'harness' / 'props' / f'{pid.lower()}.py'
+    if not f.exists():
+        return None
+    tree = ast.parse(f.read_text())
+    for node in tree.body:
+        if isinstance(node, ast.Assign) and getattr(node.targets[0], 'id', '') == 'META':
+            return ast.literal_eval(node.value)
+    return None
 
 
 def main():
     checks, na = [], []
     for p in props:
         pid = p['id']
-        if (V / 'harness' / 'props' / f'{pid.lower()}.py').exists() and pid in META:
-            m = META[pid]
+        m = load_meta(pid)
+        if m:
             checks.append({
                 'property_id': pid,
                 'quick_cmd': f'./check {pid} --tier quick',
